@@ -14,11 +14,13 @@ fn viol(cx: &mut Cx, sig: String, what: String, argv: Vec<String>) {
 
 fn offsets(cx: &mut Cx) {
     // all 64 x 256 x 256 arguments, sharded by square
-    for s in cx.mine(64) {
+    let squares: Vec<usize> = if cx.miri { vec![0, 63] } else { cx.mine(64) };
+    let step: usize = if cx.miri { 17 } else { 1 };
+    for s in squares {
         let (f, r) = fr(s);
         let sq = Square::ALL[s];
-        for df in i8::MIN..=i8::MAX {
-            for dr in i8::MIN..=i8::MAX {
+        for df in (i8::MIN..=i8::MAX).step_by(step) {
+            for dr in (i8::MIN..=i8::MAX).step_by(step) {
                 let (nf, nr) = (f + df as i32, r + dr as i32);
                 let want = if on(nf, nr) { Some(idx(nf, nr)) } else { None };
                 match guard(|| sq.try_offset(df, dr)) {
@@ -54,8 +56,9 @@ fn offsets(cx: &mut Cx) {
                 }
             }
         }
-        cx.evals(65536);
-        cx.count_n("try_offset_triples", 65536);
+        let per_axis = (256 + step - 1) / step;
+        cx.evals((per_axis * per_axis) as u64);
+        cx.count_n("try_offset_triples", (per_axis * per_axis) as u64);
     }
 }
 
@@ -253,7 +256,7 @@ fn strings(cx: &mut Cx) {
     // exhaustive short strings over a focused alphabet (shard 0..n split by first char)
     let alphabet: Vec<char> = "abh18w kpnqrQK0 9ié-+".chars().collect();
     let max_len = 3;
-    if cx.shard < alphabet.len() + 1 {
+    if cx.shard < alphabet.len() + 1 && !cx.miri {
         // shard k handles strings starting with alphabet[k-1]; shard 0 the empty string
         let mut count = 0u64;
         let my: Vec<usize> = (0..alphabet.len()).filter(|i| i % cx.shards == cx.shard).collect();
@@ -272,7 +275,7 @@ fn strings(cx: &mut Cx) {
     }
     // move-shaped strings: every canonical move text with every one-character suffix / edit
     let tail: Vec<char> = "nbrqkpNBRQKP18ah x=+#é\u{301}0".chars().collect();
-    let n_moves = cx.budget(4_000_000, 100_000_000);
+    let n_moves = if cx.miri { 40 } else { cx.budget(4_000_000, 100_000_000) };
     for _ in 0..n_moves {
         let f = cx.rng.usize(64);
         let t = cx.rng.usize(64);
@@ -291,7 +294,7 @@ fn strings(cx: &mut Cx) {
         cx.count("move_shaped_strings");
     }
     // canonical texts of the small types with edits, and random unicode
-    let n_rand = cx.budget(4_000_000, 100_000_000);
+    let n_rand = if cx.miri { 40 } else { cx.budget(4_000_000, 100_000_000) };
     for i in 0..n_rand {
         let s = match i % 5 {
             0 => random_unicode(&mut cx.rng, 6),
@@ -318,7 +321,9 @@ pub fn run(cfg: &Cfg) -> Result<Outcome, String> {
         offsets(cx);
         if cx.shard == 0 {
             coordinates(cx);
-            format_then_parse(cx);
+            if !cx.miri {
+                format_then_parse(cx);
+            }
         }
         strings(cx);
         cx.sample(|| "H8.try_offset(127, 0) must be None (not a panic); \"e7e8k\" must not parse to a move that formats as \"e7e8\"".to_string());
